@@ -11,7 +11,7 @@ use super::{
     transports::Addr,
 };
 #[cfg(not(wasm_browser))]
-pub use super::transports::verif::VerifRelayTransport;
+pub use super::transports::verif::{VerifIpConfig, VerifRelayTransport, VerifTransportsSender};
 
 /// How [`MultipathMappedAddr::from`] classifies a socket address.
 #[derive(Debug, Clone, Copy, PartialEq, Eq, Hash)]
@@ -92,4 +92,19 @@ impl VerifMappedAddrs {
     pub fn to_transport_addr(&self, addr: SocketAddr) -> Option<Addr> {
         to_transport_addr(addr, &self.0.relay_addrs, &self.0.custom_addrs)
     }
+}
+
+/// The QUIC-facing sender (`noq::UdpSender`) of a live endpoint's socket state, but sending
+/// through the given harness-controlled transports instead of the endpoint's own.
+#[cfg(not(wasm_browser))]
+pub fn quic_sender(
+    endpoint: &crate::Endpoint,
+    transports: &VerifTransportsSender,
+) -> std::pin::Pin<Box<dyn noq::UdpSender>> {
+    transports.quic_sender(endpoint.verif_inner().sock.clone())
+}
+
+/// The mapped-address maps of a live endpoint (shared, not copied).
+pub fn endpoint_mapped_addrs(endpoint: &crate::Endpoint) -> VerifMappedAddrs {
+    VerifMappedAddrs(endpoint.verif_inner().sock.mapped_addrs.clone())
 }
